@@ -19,6 +19,8 @@ CHECKS = {
     "C05-typer-failed-unchanged": ["C05", "C01"], "C06-sorted-bases": ["C06", "C07"], "C07-minus-one-shortcut": ["C07", "C16", "C06"],
     "C08-uniform-parens": ["C08"], "C11-cornish-weight": ["C11"], "C13-zero-frequency-factor": ["C13"], "C16-kernel-pivot": ["C16"],
     "C17-finiterange-upper": ["C17"], "C18-typer-combination-bound": ["C18", "C01"], "C19-remainder-unparenthesised": ["C19", "C01"],
+    "C06-kernel-stale-rows": ["C06", "C16", "C07"], "C16-setwise-coprime": ["C16", "C07"], "C07-lattice-binomials-unsaturated": ["C07", "C06"],
+    "C02-uniform-lower-bound": ["C02", "C08"], "C03-binary-any": ["C03", "C01", "C05"], "C04-beginning-values": ["C04", "C01"],
 }
 rows = []
 for name in sorted(os.listdir("seeded")):
